@@ -26,9 +26,12 @@ import (
 	"strconv"
 	"strings"
 	"sync"
+	"sync/atomic"
+	"syscall"
 	"time"
 
 	"github.com/ethereum/go-ethereum/common"
+	"github.com/ethereum/go-ethereum/core/txpool"
 	"github.com/ethereum/go-ethereum/core/txpool/blobpool"
 	"github.com/ethereum/go-ethereum/core/types"
 	"github.com/ethereum/go-ethereum/crypto"
@@ -48,7 +51,7 @@ func init() {
 
 const (
 	nAccounts = 4
-	datacap   = 2_400_000
+	datacap   = 1_700_000
 	priceBump = 100
 	maxPerAcc = 16
 )
@@ -140,6 +143,7 @@ func (e *env) mkTx(ai int, nonce uint64, tip, feeCap, blobCap int64, value int64
 //
 //	HEAD <json headState>      chain head / finality / gas tip the pool was last given
 //	BEGIN <k> <description>    operation k starts
+//	SUBMIT <hash>              the transaction is about to be passed to Add
 //	RET <hash> <class>         Add returned for the transaction (ok, ok-gapped, or an error class)
 //	ACK <hash>                 the transaction is in the pool's persistent index after the operation
 //	GONE <hash>                a previously ACKed transaction left the index in this operation
@@ -204,22 +208,34 @@ type hist struct {
 
 	authMu      sync.Mutex
 	authPending map[common.Address]bool
+	poolMu      sync.RWMutex  // held (write) while the pool object is closed and replaced
+	tick        chan struct{} // race variant: wakes the concurrent reader once per operation
 
 	known  []*txInfo
 	byHash map[common.Hash]*txInfo
 	limbo  map[common.Hash]uint64 // shadow limbo: tx hash -> inclusion block
-	acked  map[common.Hash]bool   // currently acknowledged (in the persistent index)
-	ever   map[common.Hash]bool   // ever acknowledged
-	ack    *ackLog
-	prev   *blobpool.VerifSnapshot
-	log    []string
-	dead   bool
-	opNo   int
-	sizeOf map[int]uint32 // observed slot size by blob count
+	// limboCode follows the same rules except that a re-included transaction keeps its old
+	// block number; used only to attribute the known finding narrowly
+	limboCode   map[common.Hash]uint64
+	reincluded  map[common.Hash]bool
+	viaGapped   map[common.Hash]bool // entered the index by promotion from the gapped buffer
+	viaReinject map[common.Hash]bool // entered the index by re-injection after a reorg
+	acked       map[common.Hash]bool // currently acknowledged (in the persistent index)
+	ever        map[common.Hash]bool // ever acknowledged
+	ack         *ackLog
+	prev        *blobpool.VerifSnapshot
+	log         []string
+	dead        bool
+	opNo        int
+	sizeOf      map[int]uint32 // observed slot size by blob count
 
-	cur         *opInfo     // reset bookkeeping of the current operation
-	lastAdd     common.Hash // transaction of the current Add
-	lastAddSize uint64      // its expected slot size (0 = unknown)
+	forceWalk        bool  // next check walks the stores physically
+	walkAt           int   // operation number after which the stores are walked physically once
+	killAt, storeOps int64 // kill the process at the killAt-th store observation point (0 = never)
+	verbose          bool
+	cur              *opInfo     // reset bookkeeping of the current operation
+	lastAdd          common.Hash // transaction of the current Add
+	lastAddSize      uint64      // its expected slot size (0 = unknown)
 
 	fEvict, fReplace, fLimbo, fReinject, fReopen, fGapped, fFinal, fTipDrop, fReorg, fOverdraft bool
 }
@@ -269,9 +285,13 @@ func (h *hist) hasPendingAuth(a common.Address) bool {
 
 func newHist(e *env, idx int, stream, dir, ackPath string) *hist {
 	h := &hist{e: e, r: e.r, idx: idx, rng: e.r.Rand(stream, idx), dir: dir, gasTip: 1,
-		authPending: map[common.Address]bool{}, byHash: map[common.Hash]*txInfo{}, limbo: map[common.Hash]uint64{},
+		authPending: map[common.Address]bool{}, byHash: map[common.Hash]*txInfo{}, limbo: map[common.Hash]uint64{}, limboCode: map[common.Hash]uint64{}, reincluded: map[common.Hash]bool{}, viaGapped: map[common.Hash]bool{}, viaReinject: map[common.Hash]bool{},
 		acked: map[common.Hash]bool{}, ever: map[common.Hash]bool{}, sizeOf: map[int]uint32{}}
 	h.ack = newAckLog(ackPath)
+	h.walkAt = 5 + h.rng.Intn(18)
+	if e.r.Race() {
+		h.walkAt = -1
+	}
 	gen := map[common.Address]acct{}
 	for i := 0; i < nAccounts; i++ {
 		gen[e.addrs[i]] = acct{
@@ -299,6 +319,7 @@ func (h *hist) open() {
 		return
 	}
 	h.writeHead()
+	h.armKill()
 }
 
 func (h *hist) headState() headState {
@@ -549,7 +570,30 @@ func (h *hist) end(s *blobpool.VerifSnapshot) {
 		sort.Slice(gone, func(i, j int) bool { return gone[i].Cmp(gone[j]) < 0 })
 		for _, hash := range add {
 			h.acked[hash], h.ever[hash] = true, true
-			h.ack.linef("ACK %x", hash)
+			g, tip, ai, nonce := 0, int64(0), -1, uint64(0)
+			if h.viaGapped[hash] {
+				g = 1
+			}
+			if h.viaReinject[hash] {
+				g = 2
+			}
+			if ti := h.byHash[hash]; ti != nil {
+				tip, nonce = ti.tx.GasTipCap().Int64(), ti.tx.Nonce()
+				for i, a := range h.e.addrs {
+					if a == ti.from {
+						ai = i
+					}
+				}
+			}
+			slot := uint32(0)
+			for _, l := range s.Index {
+				for _, mm := range l {
+					if mm.Hash == hash {
+						slot = mm.StorageSize
+					}
+				}
+			}
+			h.ack.linef("ACK %x tip=%d gapped=%d acct=%d nonce=%d slot=%d", hash, tip, g, ai, nonce, slot)
 		}
 		for _, hash := range gone {
 			delete(h.acked, hash)
@@ -581,6 +625,7 @@ func (h *hist) opAdd(real bool) {
 	pre := h.prev
 	want := h.predict(pre, ti)
 	h.lastAdd, h.lastAddSize = ti.tx.Hash(), uint64(h.sizeOf[len(ti.bi)])
+	h.ack.linef("SUBMIT %x", ti.tx.Hash())
 	var err error
 	if real {
 		// the full public path: ValidateTxBasics + cell computation + KZG cell verification
@@ -628,7 +673,11 @@ func (h *hist) opReset(reorg bool) {
 		}
 	}
 	cands := h.poolCands()
+	reinclude := rng.Intn(100) < 50 // offer the reorged-out txs for inclusion on the new branch
 	for _, b := range discarded {
+		if !reinclude {
+			break
+		}
 		for _, tx := range b.block.Transactions() {
 			if ti := h.byHash[tx.Hash()]; ti != nil {
 				cands = append(cands, ti)
@@ -707,11 +756,13 @@ func (h *hist) opSetTip() {
 func (h *hist) opReopen() {
 	h.begin("close + reopen")
 	pre := h.pool.VerifSnapshot(2)
+	h.poolMu.Lock()
 	if err := h.pool.Close(); err != nil {
 		h.viol("close-failed", fmt.Sprintf("Close: %v", err))
 	}
 	h.ack.linef("CLOSE")
 	h.open()
+	h.poolMu.Unlock()
 	if h.dead {
 		return
 	}
@@ -734,6 +785,22 @@ func (h *hist) stateStr(b *blk) string {
 	return sb.String()
 }
 
+// armKill installs the store observer on the current pool object (again after every reopen).
+func (h *hist) armKill() {
+	if h.killAt == 0 || h.pool == nil {
+		return
+	}
+	h.pool.VerifOnStoreOp(func(store, op string, phase int) {
+		h.storeOps++
+		if h.storeOps == h.killAt {
+			h.ack.linef("KILLED at store observation %d (%s %s phase %d)", h.storeOps, store, op, phase)
+			h.ack.close()
+			syscall.Kill(os.Getpid(), syscall.SIGKILL)
+			select {}
+		}
+	})
+}
+
 // runWorkload executes the history. It is the "run history H in directory D with ack log"
 // half; stopAfter < 0 runs all ops and closes cleanly, otherwise the function returns after
 // that many operations WITHOUT closing the pool (the caller exits the process: abrupt stop).
@@ -742,14 +809,59 @@ func (h *hist) runWorkload(nOps, stopAfter int) {
 	if h.dead {
 		return
 	}
+	if r.Race() {
+		// a concurrent reader over the public accessors, so that the race detector observes the
+		// pool's locking (results are not judged: they interleave with the operations)
+		var done atomic.Bool
+		var wg sync.WaitGroup
+		h.tick = make(chan struct{}, 4)
+		wg.Add(1)
+		go func() {
+			defer wg.Done()
+			rng := r.Rand("reader", h.idx)
+			for range h.tick { // one burst of reads per operation, concurrent with it
+				if done.Load() {
+					return
+				}
+				h.poolMu.RLock()
+				p := h.pool
+				a := h.e.addrs[rng.Intn(nAccounts)]
+				p.Stats()
+				p.Nonce(a)
+				pend, _ := p.Pending(txpool.PendingFilter{BlobTxs: true, BlobVersion: types.BlobSidecarVersion1})
+				for _, l := range pend {
+					for _, lt := range l {
+						p.Has(lt.Hash)
+						p.GetMetadata(lt.Hash)
+						p.GetBlobHashes(lt.Hash)
+						if rng.Intn(8) == 0 {
+							p.Get(lt.Hash)
+						}
+					}
+				}
+				h.poolMu.RUnlock()
+				r.Count("race_reader_rounds", 1)
+			}
+		}()
+		defer func() { done.Store(true); close(h.tick); wg.Wait() }()
+	}
 	h.begin(fmt.Sprintf("init %s tip=%d basefee=%v", h.stateStr(h.ch.headBlk()), h.gasTip, h.ch.headBlk().header.BaseFee))
 	h.prev = h.check("init", nil)
 	h.end(h.prev)
 	for step := 0; step < nOps && !h.dead; step++ {
 		if stopAfter >= 0 && step >= stopAfter {
-			return
+			// kill model: the process dies right after a completed operation
+			h.ack.close()
+			syscall.Kill(os.Getpid(), syscall.SIGKILL)
+			select {}
 		}
 		r.Case("C42 history %d step %d dir %s", h.idx, step, h.dir)
+		if h.tick != nil {
+			select {
+			case h.tick <- struct{}{}:
+			default:
+			}
+		}
 		panicked := r.Guard("op", h.witness(), func() {
 			switch x := h.rng.Intn(100); {
 			case x < 59:
@@ -773,7 +885,9 @@ func (h *hist) runWorkload(nOps, stopAfter int) {
 				h.begin(fmt.Sprintf("pending-auth %s = %v", h.addrName(a), v))
 				h.end(nil)
 			default:
-				if stopAfter < 0 {
+				// (not under the race detector: billy.Open allocates and compacts every shelf,
+				// which is pathologically slow with race instrumentation)
+				if stopAfter < 0 && !r.Race() {
 					h.opReopen()
 				}
 			}
@@ -783,9 +897,8 @@ func (h *hist) runWorkload(nOps, stopAfter int) {
 		}
 	}
 	if !h.dead && stopAfter < 0 {
-		h.opNo = 8 * (h.opNo/8 + 1) // force a physical walk
 		h.begin("final check")
-		h.opNo--
+		h.forceWalk = !r.Race()
 		h.end(h.check("final", h.prev))
 		if err := h.pool.Close(); err != nil {
 			h.viol("close-failed", fmt.Sprintf("Close: %v", err))
@@ -820,6 +933,12 @@ func childWorkload(r *vrt.Run) {
 	}
 	e := newEnv(r, blobs)
 	h := newHist(e, idx, "child", os.Getenv("C42_DIR"), os.Getenv("C42_ACK"))
+	if n, err := strconv.Atoi(os.Getenv("C42_KILLSTOREOP")); err == nil && n > 0 {
+		// kill model inside an operation: die at the n-th observation point of the billy
+		// stores (before/after each Put/Delete); count-based, never time-based
+		h.killAt = int64(n)
+		h.armKill()
+	}
 	h.runWorkload(nOps, stop)
 	h.ack.close()
 	fmt.Printf("C42-WORKLOAD-DONE ops=%d violations=%d sig=%s\n", h.opNo, r.NumViolations(), h.signature())
@@ -851,10 +970,10 @@ func run(r *vrt.Run) {
 		pprof.StartCPUProfile(f)
 		defer pprof.StopCPUProfile()
 	}
-	r.Rule("each case is one history over a fresh BlobPool directory (Datacap 2.4 MB: 3-8 txs fit, bump 100%) and a harness chain with 4 accounts (one possibly delegated, pending-auth flag toggled): ops Add (cheap path ValidateTxBasics+AddPooledTx with precomputed cells; a few through the full Add with KZG), head advance with inclusions (also never-published blob txs), fee changes, reorgs 1-3 deep above finality, finality lag 0-4, SetGasTip, reset on the same head, Close+New/Init on the same directory; txs carry 1-3 of the precomputed blobs, nonces next/replacement/gapped/stale, fees around the 100% bump thresholds, values at the balance edge. Child flows run a history in a child process, stop it cleanly or abruptly at an operation boundary and reopen the directory in another child. A history is non-trivial if it showed eviction, replacement, limbo traffic, re-injection or a reopen; signature = vector of those flags plus gapped/finality/tip-drop/reorg/overdraft flags")
+	r.Rule("each case is one history over a fresh BlobPool directory (Datacap 1.7 MB: 2-6 txs fit, bump 100%) and a harness chain with 4 accounts (one possibly delegated, pending-auth flag toggled): ops Add (cheap path ValidateTxBasics+AddPooledTx with precomputed cells; a few through the full Add with KZG), head advance with inclusions (also never-published blob txs), fee changes, reorgs 1-3 deep above finality, finality lag 0-4, SetGasTip, reset on the same head, Close+New/Init on the same directory; txs carry 1-3 of the precomputed blobs, nonces next/replacement/gapped/stale, fees around the 100% bump thresholds, values at the balance edge. Child flows run a history in a child process, stop it cleanly or abruptly at an operation boundary and reopen the directory in another child. A history is non-trivial if it showed eviction, replacement, limbo traffic, re-injection or a reopen; signature = vector of those flags plus gapped/finality/tip-drop/reorg/overdraft flags")
 	nBlobs := 6
 	if r.Race() {
-		nBlobs = 3
+		nBlobs = 2 // KZG under the race detector is ~10x slower
 	}
 	t0 := time.Now()
 	blobs := makeBlobSets(nBlobs)
@@ -864,15 +983,26 @@ func run(r *vrt.Run) {
 		panic(err)
 	}
 	e := newEnv(r, blobs)
-	nHist := r.N(300, 15000)
+	nHist := r.N(100, 4000)
+
+	nOps := 25
+	nChild := r.N(9, 150)
+	if r.Race() {
+		nHist = r.N(4, 24)
+		nChild = r.N(0, 9) // cross-process flows add nothing under the race detector
+	}
+	if v := os.Getenv("C42_HIST"); v != "" { // debugging aid: one history, verbose
+		i, _ := strconv.Atoi(v)
+		h := newHist(e, i, "hist", filepath.Join(r.Scratch, "dbg"), "")
+		h.verbose = true
+		h.runWorkload(nOps, -1)
+		for _, l := range h.log {
+			fmt.Println(l)
+		}
+		return
+	}
 	if v := os.Getenv("C42_NHIST"); v != "" {
 		nHist, _ = strconv.Atoi(v)
-	}
-	nOps := 25
-	nChild := r.N(6, 200)
-	if r.Race() {
-		nHist = r.N(40, 1500)
-		nChild = r.N(2, 20)
 	}
 	vrt.Par(nHist, 0, func(i int) {
 		dir := filepath.Join(r.Scratch, fmt.Sprintf("h%d", i))
@@ -896,22 +1026,50 @@ func run(r *vrt.Run) {
 		ackPath := filepath.Join(r.Scratch, fmt.Sprintf("c%d.ack", i))
 		os.MkdirAll(dir, 0o755)
 		rng := r.Rand("childflow", i)
-		stop, mode := -1, "exact"
-		if i%2 == 1 {
-			stop, mode = 8+rng.Intn(nOps-8), "abrupt"
+		stop, killOp, mode := -1, 0, "exact"
+		switch i % 3 {
+		case 1: // SIGKILL right after a completed operation
+			stop, mode = 6+rng.Intn(nOps-6), "abrupt"
+		case 2: // SIGKILL inside an operation, at a billy store observation point
+			killOp, mode = 4+rng.Intn(40), "abrupt-inside"
 		}
-		envv := []string{"C42_DIR=" + dir, "C42_ACK=" + ackPath, "C42_BLOBS=" + blobFile, fmt.Sprintf("C42_HIST=%d", i), fmt.Sprintf("C42_OPS=%d", nOps), fmt.Sprintf("C42_STOP=%d", stop)}
+		envv := []string{"C42_DIR=" + dir, "C42_ACK=" + ackPath, "C42_BLOBS=" + blobFile, fmt.Sprintf("C42_HIST=%d", i), fmt.Sprintf("C42_OPS=%d", nOps), fmt.Sprintf("C42_STOP=%d", stop), fmt.Sprintf("C42_KILLSTOREOP=%d", killOp)}
 		r.Case("C42 child flow %d (%s)", i, mode)
 		cr := r.Child("c42-workload", envv, 10*time.Minute)
 		if cr.TimedOut {
 			r.Inconclusive("child workload %d timed out", i)
 			return
 		}
-		if cr.Exit != 0 {
+		killed := cr.Exit == -1 && strings.Contains(cr.Signal, "kill")
+		if mode != "exact" && !killed && cr.Exit == 0 {
+			r.Count("child_flows_kill_point_not_reached", 1) // history ended (or stopped by a finding) before the kill point
+			mode = "exact"
+		}
+		if cr.Exit == 1 {
+			// the child's monitor found something: re-raise with the child's fingerprints
+			n := 0
+			for _, l := range strings.Split(string(cr.Output), "\n") {
+				if rest, ok := strings.CutPrefix(l, "violation[C42] "); ok {
+					if fp, msg, ok := strings.Cut(rest, ": "); ok {
+						r.Violation(fp, fmt.Sprintf("child flow %d: %s", i, msg), map[string]any{"flow": i, "mode": mode, "stop": stop})
+						n++
+					}
+				}
+			}
+			if n > 0 {
+				r.Count("child_flows_stopped_by_finding", 1)
+				return
+			}
+		}
+		if cr.Exit != 0 && !killed {
 			r.Violation("child-workload-failed", fmt.Sprintf("workload child %d exit=%d signal=%s: %s", i, cr.Exit, cr.Signal, tail(cr.Output, 1500)), map[string]any{"flow": i})
 			return
 		}
-		cr = r.Child("c42-reopen", append(envv, "C42_MODE="+mode), 10*time.Minute)
+		rmode := mode
+		if mode == "abrupt-inside" {
+			rmode = "abrupt"
+		}
+		cr = r.Child("c42-reopen", append(envv, "C42_MODE="+rmode), 10*time.Minute)
 		if cr.TimedOut {
 			r.Inconclusive("child reopen %d timed out", i)
 			return
@@ -930,14 +1088,23 @@ func run(r *vrt.Run) {
 			return
 		}
 		for _, v := range res.Violations {
-			r.Violation("reopen-"+mode+":"+v.FP, fmt.Sprintf("child flow %d: %s", i, v.Msg), map[string]any{"flow": i, "mode": mode, "stop": stop, "ack_tail": res.AckTail})
+			r.Violation("reopen-"+rmode+":"+v.FP, fmt.Sprintf("child flow %d: %s", i, v.Msg), map[string]any{"flow": i, "mode": mode, "stop": stop, "ack_tail": res.AckTail})
 		}
 		r.Count("child_flows_"+mode, 1)
 		r.Count("child_reopened_txs", res.Pooled)
+		r.Count("child_abrupt_acked_missing_noted", res.AckedGone)
 		r.Count("child_reopened_limbo", res.Limboed)
 		r.Eval(fmt.Sprintf("child/%s/pooled%v/limbo%v", mode, res.Pooled > 0, res.Limboed > 0))
 		os.RemoveAll(dir)
 	})
+	r.Assume("harness chain stub: per-block account state chosen by the harness; account state changes only for accounts having a transaction in the block (the pool rechecks exactly those)")
+	r.Assume("blob sets are valid KZG commitments/cell proofs computed once by go-ethereum's own kzg4844 package; most Adds use the public cheap path (ValidateTxBasics + AddPooledTx) to stay within budget")
+	r.Extra("datacap", datacap)
+	if r.Race() && r.Quick() {
+		r.Require("op_add", int64(nHist)*5)
+		r.Require("snapshots_checked", int64(nHist)*10)
+		return
+	}
 	r.Require("replacements_accepted", int64(nHist/10)+1)
 	r.Require("evictions_seen", int64(nHist/10)+1)
 	r.Require("limbo_pushes", int64(nHist/10)+1)
@@ -946,11 +1113,11 @@ func run(r *vrt.Run) {
 	r.Require("op_reopen", int64(nHist/10)+1)
 	r.Require("reopen_txs_compared", int64(nHist/10)+1)
 	r.Require("add_judged", int64(nHist)*5)
-	r.Require("child_flows_exact", 1)
-	r.Require("child_flows_abrupt", 1)
-	r.Assume("harness chain stub: per-block account state chosen by the harness; account state changes only for accounts having a transaction in the block (the pool rechecks exactly those)")
-	r.Assume("blob sets are valid KZG commitments/cell proofs computed once by go-ethereum's own kzg4844 package; most Adds use the public cheap path (ValidateTxBasics + AddPooledTx) to stay within budget")
-	r.Extra("datacap", datacap)
+	if nChild >= 3 {
+		r.Require("child_flows_exact", 1)
+		r.Require("child_flows_abrupt", 1)
+		r.Require("child_flows_abrupt-inside", 1)
+	}
 }
 
 func tail(b []byte, n int) string {
